@@ -2,12 +2,35 @@ package sim
 
 import (
 	"bytes"
+	"fmt"
 	"io"
+	"time"
 
 	"google.golang.org/protobuf/encoding/protodelim"
 
+	"github.com/prometheus/alertmanager/nflog"
 	"github.com/prometheus/alertmanager/nflog/nflogpb"
 )
+
+// nflogNotCovered: the unexpired entries of the full-state blob src for which dst holds no entry at least as new.
+// After dst merged src there must be none (a full-state exchange hands over the complete log, newest wins).
+func nflogNotCovered(src []byte, dst *nflog.Log, now time.Time) []string {
+	var out []string
+	r := bytes.NewReader(src)
+	for {
+		var e nflogpb.MeshEntry
+		if err := protodelim.UnmarshalFrom(r, &e); err != nil {
+			return out
+		}
+		if e.Entry == nil || e.Entry.Receiver == nil || !e.ExpiresAt.AsTime().After(now) {
+			continue
+		}
+		es, err := dst.Query(nflog.QGroupKey(string(e.Entry.GroupKey)), nflog.QReceiver(e.Entry.Receiver))
+		if err != nil || len(es) != 1 || es[0].Timestamp.AsTime().Before(e.Entry.Timestamp.AsTime()) {
+			out = append(out, fmt.Sprintf("%s %s/%d ts=%s", e.Entry.GroupKey, e.Entry.Receiver.GroupName, e.Entry.Receiver.Idx, e.Entry.Timestamp.AsTime().Format("15:04:05.000")))
+		}
+	}
+}
 
 // decodeNflog decodes a gossip blob of the notification log (length-delimited MeshEntry records).
 func decodeNflog(b []byte) []NflogEntry {
